@@ -1057,6 +1057,18 @@ func c04Lambda(c *lib.Ctx) {
 				"shape": c04ShapeJSON(cs.sh), "argv": c04ArgsJSON(cs.args)})
 		}
 		ctxs := append(append([]string{}, c04Contexts...), c04MoreContexts...)
+		if !cs.sweep && c.Thorough() {
+			// thorough composite: lambda + defun always, four of the other twelve contexts in turn
+			// (every context sees a third of the cases; the method chain every fourth of its turns)
+			ctxs = []string{"lambda", "defun"}
+			for k := 0; k < 4; k++ {
+				o := others[(i+3*k)%len(others)]
+				if o == "around" && (i/len(others))%4 != 0 {
+					o = "clos"
+				}
+				ctxs = append(ctxs, o)
+			}
+		}
 		if quickComposite(i) {
 			// quick composite: lambda always, defun for every second case, one of the other contexts in turn
 			ctxs = []string{"lambda", otherOf(i)}
@@ -1301,7 +1313,7 @@ func runC04(c *lib.Ctx) {
 	}
 	sort.Strings(keys)
 	c.Ev.Coverage["lambda_contexts"] = keys
-	c.Ev.Coverage["rule"] = "part (i): cases = (lambda-list shape, argument vector) evaluated in up to fourteen call contexts (lambda, defun, shadowing let, funcall, apply, defmacro, multiple-value-call, apply with leading arguments, flavors method via send, CLOS method, two calls through mapcar and map with retained results, :around method chain with call-next-method with and without arguments, flavors whopper with continue-whopper); sweep = 47 minimal shapes (each parameter kind alone / in pairs) x systematic vectors of length 0..8 (positional counts, all key tails up to 2-3 pairs over declared/unknown/parameter-named keys, all key permutations, duplicates, odd and non-keyword tails), seed independent; composite = the 1680 shapes of the quantifier (thorough: all, quick: 800 sampled by seed) x systematic + seeded random tails; part (ii): cells = (built-in, argc) for every function of every package, argc 0..documented max+2 (+4,+8,+16,+24 when unbounded). non-trivial = lambda list with >= 2 parameter kinds or argc at min-1, min, max, max+1; distinct by (shape, args) / (builtin, argc)"
+	c.Ev.Coverage["rule"] = "part (i): cases = (lambda-list shape, argument vector) evaluated in up to fourteen call contexts (lambda, defun, shadowing let, funcall, apply, defmacro, multiple-value-call, apply with leading arguments, flavors method via send, CLOS method, two calls through mapcar and map with retained results, :around method chain with call-next-method with and without arguments, flavors whopper with continue-whopper); sweep = 47 minimal shapes (each parameter kind alone / in pairs) x systematic vectors of length 0..8 (positional counts, all key tails up to 2-3 pairs over declared/unknown/parameter-named keys, all key permutations, duplicates, odd and non-keyword tails), seed independent; composite = the 1680 shapes of the quantifier (thorough: all, quick: 800 sampled by seed) x systematic + seeded random tails; every case is also run on the code-level machine (ll impl: Lambda.Call as extracted from lambda.go) which must agree with the model (inside the listed &rest+&key construct: with the split prediction); malformed lambda-list elements (5 kinds x 4 sections x lambda/defun/defmacro) must be rejected at definition; part (ii): cells = (built-in, argc) for every function of every package, argc 0..documented max+2 (+4,+8,+16,+24 when unbounded); part (ii-b): every built-in with a documented &key section (no &rest/&allow-other-keys) x 4 odd key tails (dangling known / unknown / repeated / after a pair) behind a baseline call found from the argument pools. non-trivial = lambda list with >= 2 parameter kinds or argc at min-1, min, max, max+1; distinct by (shape, args) / (builtin, argc)"
 }
 
 func c04DumpFindings(c *lib.Ctx, path string) {
